@@ -120,7 +120,16 @@ let run (hist : string) (impl : string) =
              List.iter (fun (o : iout) -> bump (kind_of_text o.text)) iouts;
              if iouts <> [] then Hashtbl.replace nontriv (hst.hline ^ text ^ String.concat "|" (List.map show iouts)) ();
              (* property checkers on the implementation's outputs, in the model's state context *)
-             let (fails, mon') = Chk_gw.step hst.cfg !s s' ev iouts !mon in
+             (* Go's map iteration order picks one of several topic IDs that denote the same name for this
+                client (findRegisteredTopicID, GetTopicID); the model picks the least.  Where the two
+                outputs are equal up to that choice the checkers see the model's representative. *)
+             let rec canon ms is =
+               match ms, is with
+               | (m : iout) :: ms', (i : iout) :: is' ->
+                 (if m.text <> i.text && eqv hst.cfg !s m i then { i with text = m.text } else i) :: canon ms' is'
+               | _, is -> is in
+             let ciouts = canon mouts iouts in
+             let (fails, mon') = Chk_gw.step hst.cfg !s s' ev ciouts !mon in
              mon := mon';
              List.iter (fun (p, c) ->
                  fail p c k (Printf.sprintf "event=%s impl=[%s]" text (String.concat "; " (List.map show iouts)))) fails;
